@@ -62,7 +62,7 @@ func runWorld(t *rapid.T, prop string) {
 		gen.MinPathLen, gen.MaxPathLen = 124, 136
 		longInputs = true
 	}
-	gen.AllowDivergent = !unanimous && (prop == "C02" || prop == "C07")
+	gen.AllowDivergent = !unanimous && (prop == "C02" || prop == "C07" || prop == "C03")
 	profile := rapid.SampledFrom(vnet.Profiles).Draw(t, "profile")
 	if forced := os.Getenv("VERIF_PROFILE"); forced != "" {
 		profile = forced // development aid only
@@ -193,7 +193,8 @@ func runWorld(t *rapid.T, prop string) {
 		fmt.Sprintf("forged-flood>0:%v", w.Stats.ForgedFloods > 0),
 		fmt.Sprintf("supp-variant>0:%v", w.Stats.SuppVariants > 0),
 		fmt.Sprintf("validated-then-queued>0:%v", w.Stats.StagedReceived > 0),
-		fmt.Sprintf("participant-with-diverged-base-view:%v", len(cfg.Divergent) > 0),
+		fmt.Sprintf("participant-with-diverged-base-view:%v", len(cfg.Divergent) > 0 && !cfg.DivergentSupp),
+		fmt.Sprintf("participant-with-diverged-supplemental-data:%v", len(cfg.Divergent) > 0 && cfg.DivergentSupp),
 		fmt.Sprintf("inputs-around-max-chain-length:%v", longInputs),
 		fmt.Sprintf("greedy-decider:%v/realised:%v", ro.GreedyDecide, w.Stats.KillDecisions > 0),
 	}
